@@ -101,10 +101,7 @@ func verifEntryOp(l string, e *verifEnt) string {
 // receives the instant, not the spelling.
 func verifMtime(s string) string {
 	t, _ := time.Parse(time.RFC3339, s)
-	if t.IsZero() {
-		return "z"
-	}
-	return fmt.Sprintf("%d", t.UnixNano())
+	return verifInstant(t)
 }
 
 // ---------------------------------------------------------------- JSON (de)serialisation
@@ -450,6 +447,51 @@ func (g *verifGen) freshName(parent string) string {
 	return full
 }
 
+// verifEdgeTimes: every RFC3339 instant is a valid modtime (years 0001..9999, any zone, nanosecond
+// fractions). The list covers what an encoding of the time attribute can get wrong: outside the
+// int64-nanosecond range (before 1677-09-21T00:12:43.145224192Z / after 2262-04-11T23:47:16.854775807Z)
+// and exactly at its borders, before the Unix epoch (negative seconds, with and without a fraction),
+// the epoch itself (Unix()==0 but not IsZero), year 1 / the zero time and instants around it that
+// are zero or pre-zero only in UTC, sub-second precision, non-UTC zones (incl. odd minute offsets),
+// 32-bit time_t borders, year 9999.
+var verifEdgeTimes = []string{
+	"2300-01-02T03:04:05Z", "1600-06-07T08:09:10Z", "9999-12-31T23:59:59.999999999Z", "0001-01-01T00:00:01Z",
+	"2262-04-11T23:47:16.854775807Z", "2262-04-11T23:47:16.854775808Z", "2262-04-11T23:47:17Z",
+	"1677-09-21T00:12:43.145224192Z", "1677-09-21T00:12:43.145224191Z", "1677-09-21T00:12:43Z",
+	"1969-12-31T23:59:59Z", "1969-12-31T23:59:59.5Z", "1970-01-01T00:00:00Z", "1970-01-01T00:00:00.000000001Z",
+	"1970-01-01T09:00:00+09:00", "1901-12-13T20:45:51Z", "2038-01-19T03:14:08Z", "2106-02-07T06:28:16Z",
+	"0001-01-01T00:00:00Z", "0001-01-01T00:00:00.000000001Z", "0001-01-01T09:00:00+09:00", "0001-01-01T00:00:00+09:00",
+	"0000-12-31T19:00:00-05:00", "0001-01-01T00:00:00-05:00",
+	"2554-07-21T23:34:33.709551615Z", "2554-07-21T23:34:33.709551616Z", "1385-06-12T00:25:26.290448384Z",
+	"2021-03-04T05:06:07.000000001-07:00", "2500-02-28T23:59:59.999+05:45", "1500-07-01T12:00:00.25-03:30",
+	"2021-03-04T05:06:07+14:00", "2021-03-04T05:06:07-12:00", "2021-03-04T05:06:07.9Z",
+}
+
+func verifEdgeTime(r *verifutil.Rand) string {
+	if r.Intn(3) != 0 {
+		return verifEdgeTimes[r.Intn(len(verifEdgeTimes))]
+	}
+	// random instant anywhere in years 0001..9999, random fraction, random zone
+	const y1, y9999 = -62135596800, 253402300799
+	sec := y1 + int64(r.Intn(1<<30))*int64(r.Intn(1<<9)) // up to ~5.5e11
+	if sec > y9999 {
+		sec = y9999 - int64(r.Intn(1<<30))
+	}
+	var ns int64
+	if r.Intn(2) == 0 {
+		ns = int64(r.Intn(1000000000))
+	}
+	t := time.Unix(sec, ns).UTC()
+	if r.Intn(2) == 0 {
+		off := (r.Intn(26*60) - 12*60) * 60
+		z := t.In(time.FixedZone("", off))
+		if y := z.Year(); y >= 1 && y <= 9999 {
+			t = z
+		}
+	}
+	return t.Format(time.RFC3339Nano)
+}
+
 func (g *verifGen) attrs(e *verifEnt) {
 	r := g.rnd
 	switch r.Pick(3, 2, 1) {
@@ -466,7 +508,7 @@ func (g *verifGen) attrs(e *verifEnt) {
 	if r.Intn(3) == 0 {
 		e.GID = r.Intn(70000)
 	}
-	switch r.Pick(4, 3, 1, 1, 1) {
+	switch r.Pick(4, 3, 1, 1, 1, 3) {
 	case 1:
 		e.ModTime = time.Unix(int64(r.Intn(2000000000)), 0).UTC().Format(time.RFC3339)
 	case 2:
@@ -475,6 +517,9 @@ func (g *verifGen) attrs(e *verifEnt) {
 		e.ModTime = "2021-03-04T05:06:07.123456789Z"
 	case 4:
 		e.ModTime = "not-a-time"
+	case 5:
+		e.ModTime = verifEdgeTime(r)
+		g.feat["mtime-edge"] = true
 	}
 	if r.Intn(3) == 0 {
 		n := 1 + r.Intn(4)
@@ -972,7 +1017,7 @@ func verifGenBuilder(rnd *verifutil.Rand, label string) (*verifLayer, error) {
 		h.Uid, h.Gid = e.UID, e.GID
 		if e.ModTime != "" {
 			if t, err := time.Parse(time.RFC3339, e.ModTime); err == nil {
-				h.ModTime = t.Truncate(time.Second)
+				h.ModTime = t // PAX keeps sub-second precision and any year; the builder rounds to seconds
 			}
 		}
 		if len(e.Xattrs) > 0 {
@@ -1187,6 +1232,44 @@ func verifBuilderScenarios() ([]*verifLayer, error) {
 		opts := []estargz.Option{estargz.WithCompression(comp), estargz.WithChunkSize(1000), estargz.WithMinChunkSize(8000)}
 		l, err := verifBuilderLayer("builder-chunks-share-stream opts=chunk=1000,minchunk=8000", verifBuildTar(tents), comp, "gzip", opts,
 			map[string][]byte{"d/big": big, "small": content})
+		if err != nil {
+			return nil, err
+		}
+		ls = append(ls, l)
+	}
+	// tar (PAX) modification times at the edges of every plausible time encoding, on every node kind,
+	// through the real builder (which rounds to seconds and writes RFC3339 into the TOC)
+	for ci, compr := range []string{"gzip", "zstd"} {
+		var tents []verifTarEnt
+		files := map[string][]byte{}
+		for i, ts := range verifEdgeTimes {
+			mt, err := time.Parse(time.RFC3339, ts)
+			if err != nil {
+				return nil, fmt.Errorf("edge time %q: %v", ts, err)
+			}
+			if i%8 == 0 {
+				tents = append(tents, verifTarEnt{h: tar.Header{Typeflag: tar.TypeDir, Name: fmt.Sprintf("t%d/", i/8), Mode: 0755, ModTime: mt}})
+			}
+			name := fmt.Sprintf("t%d/e%02d", i/8, i)
+			switch (i + ci) % 5 {
+			case 1:
+				tents = append(tents, verifTarEnt{h: tar.Header{Typeflag: tar.TypeSymlink, Name: name, Linkname: "e00", Mode: 0777, ModTime: mt}})
+			case 3:
+				tents = append(tents, verifTarEnt{h: tar.Header{Typeflag: tar.TypeChar, Name: name, Devmajor: 1, Devminor: 3, Mode: 0600, ModTime: mt}})
+			default:
+				c := []byte(ts)
+				tents = append(tents, verifTarEnt{h: tar.Header{Typeflag: tar.TypeReg, Name: name, Size: int64(len(c)), Mode: 0644, ModTime: mt}, data: c})
+				files[name] = c
+			}
+		}
+		var comp tutil.Compression
+		if compr == "zstd" {
+			comp = tutil.ZstdCompressionWithLevel(zstd.SpeedFastest)()
+		} else {
+			comp = tutil.GzipCompressionWithLevel(gzip.BestSpeed)()
+		}
+		l, err := verifBuilderLayer("builder-mtime-edges-"+compr+" opts= feat=mtime-edge", verifBuildTar(tents), comp, compr,
+			[]estargz.Option{estargz.WithCompression(comp)}, files)
 		if err != nil {
 			return nil, err
 		}
@@ -1426,6 +1509,37 @@ func verifRegressionScenarios() []*verifLayer {
 		ents[1].Digest = ""
 		ls = append(ls, verifScenario("chunks-and-streams", "conf", "gzip", ents, [][]int{{6, 7}, {9}}, verifStd))
 	}
+	// modification times at the edges of every plausible encoding of the time attribute (hand-serialised
+	// RFC3339 strings incl. fractions and zones), on files, directories, symlinks, devices and hardlinks
+	for ci, compr := range []string{"gzip", "zstd"} {
+		var ents [][]verifEnt
+		for i, ts := range verifEdgeTimes {
+			if i%8 == 0 {
+				ents = append(ents, vOne(vE(fmt.Sprintf("t%d/", i/8), "dir", vMode(0755), vMtime(ts))))
+			}
+			name := fmt.Sprintf("t%d/e%02d", i/8, i)
+			switch (i + ci) % 5 {
+			case 1:
+				ents = append(ents, vOne(vE(name, "symlink", vLink("e00"), vMtime(ts))))
+			case 3:
+				ents = append(ents, vOne(vE(name, "char", vDev(1, 3), vMtime(ts))))
+			default:
+				ents = append(ents, vFile(name, ts, nil, vMtime(ts), vMode(0644)))
+			}
+		}
+		ents = append(ents, vOne(vE("hl", "hardlink", vLink("t0/e00"))))
+		ls = append(ls, verifScenario("mtime-edges-"+compr, "conf", compr, vCat(ents...), nil, verifStd))
+	}
+	// the other attributes at the edges of their encodings (varint uid/gid/dev, uvarint mode, xattr split)
+	ls = append(ls, verifScenario("attr-extremes", "conf", "gzip", vCat(
+		vFile("u31", "a", nil, vOwner(2147483647, 2147483647), vMode(07777)),
+		vFile("u32", "b", nil, vOwner(4294967295, 4294967294), vMode(0)),
+		vFile("u33", "c", nil, vOwner(4294967296+5, 1<<40), vMode(01000)),
+		vFile("neg", "d", nil, vOwner(-1, -2), vMode(04755)),
+		vOne(vE("devbig", "block", vDev(2147483647, 4294967295), vOwner(0, 1))),
+		vOne(vE("devneg", "char", vDev(-1, 1<<33), vMode(0600))),
+		vOne(vE("dx/", "dir", vMode(0), vOwner(1<<31, 0), vX("user.a", "", "user.b", "\x00\xff", "user.c", "c"))),
+	), nil, verifStd))
 	return ls
 }
 
